@@ -439,3 +439,28 @@ mod tests {
         );
     }
 }
+
+#[cfg(feature = "verif")]
+pub mod verif_hooks {
+    use std::ffi::OsStr;
+    use std::path::{Path, PathBuf};
+
+    impl super::DoFile {
+        pub fn verif_base_dir(&self) -> &Path {
+            &self.base_dir
+        }
+        pub fn verif_base_name(&self) -> &Path {
+            &self.base_name
+        }
+        pub fn verif_ext(&self) -> &OsStr {
+            &self.ext
+        }
+    }
+
+    pub fn path_splits(p: &Path) -> Vec<(PathBuf, PathBuf)> {
+        super::path_splits(p)
+            .into_iter()
+            .map(|(a, b)| (a.to_path_buf(), b.to_path_buf()))
+            .collect()
+    }
+}
